@@ -735,10 +735,10 @@ func (v *Verifier) verifyFunc(fullKey string, fc *FuncContract) (rep *FuncReport
 	e.initGhosts(s)
 	st := s.clone()
 	for _, r := range fc.Requires {
-		st.assume(e.evalClause(r, st, s, nil))
+		st.assume(e.asHyp(func() *Node { return e.evalClause(r, st, s, nil) }))
 	}
 	for _, ax := range v.db.Axioms {
-		st.assume(e.evalClause(ax, st, s, nil))
+		st.assume(e.asHyp(func() *Node { return e.evalClause(ax, st, s, nil) }))
 	}
 	// reachability of the body under the preconditions (vacuity guard)
 	e.obls = append(e.obls, &Obligation{Name: e.funcKey + "/cover/requires", Kind: "cover", Goal: tTrue, Hyp: st.pc, Cover: true,
@@ -941,7 +941,7 @@ func (v *Verifier) verifyLemma(l *Lemma) (rep *FuncReport) {
 	}
 	st := s.clone()
 	for _, r := range l.Requires {
-		st.assume(e.evalClause(r, st, s, vars))
+		st.assume(e.asHyp(func() *Node { return e.evalClause(r, st, s, vars) }))
 	}
 	e.obls = append(e.obls, &Obligation{Name: rep.Key + "/cover/requires", Kind: "cover", Goal: tTrue, Hyp: st.pc, Cover: true,
 		Func: rep.Key, Text: "lemma hypotheses are satisfiable", Props: l.Props, Mode: l.Mode, exec: e})
